@@ -407,8 +407,11 @@ def check_c07(w):
                             % (t['idx'], oc[1]))
             continue
         if st in ('failed', 'cancelled') and ev['exact']:
-            if oc[0] != 'exc' or (ev.get('exc_before') is not None and
-                                  oc[1] is not ev['exc_before']):
+            # (the final step may still complete and turn it into a success -
+            # judged by the effect oracles; what may not happen is that the
+            # later cancel replaces the recorded error)
+            if oc[0] == 'exc' and ev.get('exc_before') is not None and \
+                    oc[1] is not ev['exc_before']:
                 w.violation('C07', 'finished-result-changed',
                             't%d had already %s with %r when cancelled but outcome is %r'
                             % (t['idx'], st, ev.get('exc_before'), oc[1:2]))
